@@ -205,12 +205,14 @@ def finish(rep: Report) -> int:
     print(f"{rep.prop}: {n_dis}/{n_ob} obligations discharged, {len(undecided)} undecided, "
           f"{sum(b.evaluations for b in rep.bounded)} bounded evaluations, {len(violations)} violations, "
           f"{len(known_lines)} known findings, {ev['wall_s']}s")
+    if violations:
+        return 1  # a violation with its replay is reported even if some other part of the check could not run
     if rep.errors:
         return 3
-    if violations:
-        return 1
     if undecided or (n_ob == 0 and not rep.bounded):
         return 2 if undecided else 3
+    if rep.out_of_reach:
+        return 2  # a function that is under contract could not be analysed on this tree: its obligations are undecided
     total_b = sum(b.evaluations for b in rep.bounded)
     skipped = sum(b.skipped for b in rep.bounded)
     if total_b and skipped > 0.01 * total_b:
